@@ -14,7 +14,7 @@ for pid, c in sorted(D.CHECKS.items()):
         'evidence_file': 'evidence/%s.json' % pid,
         'replay_cmd_template': './check %s --replay {path}' % pid,
         'engine': 'vf',
-        'level_claimed': {'category': c['level'], 'text': c['text'], 'design_ref': 'DESIGN.md section 2, ' + pid},
+        'level_claimed': {'category': c['level'], 'text': c['text'] + getattr(D, 'EXTRA_TEXT', {}).get(pid, ''), 'design_ref': 'DESIGN.md section 2, ' + pid},
         'level_note': c['note'],
         'technique': c['technique'],
     })
